@@ -207,7 +207,10 @@ class C(Check):
             if v == 'inconclusive':
                 self.count('sbml-not-eq-value-undecided')
                 continue
-            if v == 'diff':
+            from .c35 import _has_power_of_reciprocal
+            if v == 'diff' and _has_power_of_reciprocal(res[cid].s(1).v['t']) and not _has_power_of_reciprocal(res[cid].s(5).v['t']):
+                self.viol(dict(clause='sbml-roundtrip-value', family='reciprocal-power-refolded'), dict(program=prog[:5], expr=es[:200], sbml=sb[:300], parsed=ps[:200], detail=str(d)[:200], config='asan'))
+            elif v == 'diff':
                 self.viol(dict(clause='sbml-roundtrip-value', top=top), dict(program=prog[:5], expr=es[:200], sbml=sb[:300], parsed=ps[:200], detail=str(d)[:200], config='asan'))
             else:
                 self.viol(dict(clause='sbml-roundtrip-structure', top=top), dict(program=prog[:5], expr=es[:200], sbml=sb[:300], parsed=ps[:200], config='asan'))
